@@ -274,9 +274,9 @@ func (in *vInst) inject(conn int, b []byte) (out [][]byte, frame, msg string) {
 	}()
 	select {
 	case <-done:
-	case <-time.After(5 * time.Minute):
+	case <-time.After(90 * time.Second):
 		// the receive loop of the real agent would be blocked for good; the goroutine is abandoned
-		return c.sock.take(), "WEDGE", "HandlePFCPMsg did not return within 5 minutes"
+		return c.sock.take(), "WEDGE", "HandlePFCPMsg did not return within 90 s"
 	}
 	return c.sock.take(), frame, msg
 }
